@@ -13,6 +13,7 @@ import (
 	"runtime"
 	"sort"
 	"strings"
+	"sync"
 	"time"
 
 	"github.com/google/uuid"
@@ -61,6 +62,7 @@ type vSess struct {
 	desc     []string
 	injN     int
 	respN    map[string]int // response frames written, per call id (both directions)
+	wmu      sync.Mutex     // the write callbacks of the two transports run on the endpoints' goroutines
 }
 
 func vNewSess(r *vRand) *vSess {
@@ -87,10 +89,20 @@ func vNewSessOn(r *vRand, srv *vSrvEnd, key credentials.StaticSizedPublicKey, sr
 			s.respN[m.GetResponse().GetCallId()]++
 		}
 	}
-	s.cli.tr.onWrite = func(b []byte) { note(b); s.toB = append(s.toB, append([]byte(nil), b...)) }
+	s.cli.tr.onWrite = func(b []byte) {
+		s.wmu.Lock()
+		defer s.wmu.Unlock()
+		note(b)
+		s.toB = append(s.toB, append([]byte(nil), b...))
+	}
 	s.cli.tr.mu.Unlock()
 	s.srvTr.mu.Lock()
-	s.srvTr.onWrite = func(b []byte) { note(b); s.toA = append(s.toA, append([]byte(nil), b...)) }
+	s.srvTr.onWrite = func(b []byte) {
+		s.wmu.Lock()
+		defer s.wmu.Unlock()
+		note(b)
+		s.toA = append(s.toA, append([]byte(nil), b...))
+	}
 	s.srvTr.mu.Unlock()
 	return s
 }
@@ -180,8 +192,14 @@ func (s *vSess) doCall() {
 	side := []string{"A", "B"}[s.r.Intn(2)]
 	i := len(s.calls)
 	token := fmt.Sprintf("c%d_%d", i, s.key[0]) // unique across the sessions of a shared server
-	meth := []string{"Echo", "Echo", "Other", "snake_case", "Nope"}[s.r.Intn(5)]
-	dir := []string{"", "", "", "fail:handler failed", "failv:failed with value", "bare:untyped nil", "empty"}[s.r.Intn(7)]
+	if s.r.Intn(3) == 0 {
+		// tokens are free text too (they come back inside the reply)
+		token += []string{"%", "%d", "%s%!", "%%", " 100% "}[s.r.Intn(5)]
+	}
+	meth := []string{"Echo", "Echo", "Other", "snake_case", "Nope", "Nope%d", "100%"}[s.r.Intn(7)]
+	// handler error texts are data: '%' sequences in them must arrive as they were sent (vPctText)
+	dir := []string{"", "", "", "fail:" + vPctText(s.r, "handler failed"), "failv:" + vPctText(s.r, "failed with value"), "bare:" + vPctText(s.r, "untyped nil"), "empty",
+		"fail:" + vPctText(s.r, "handler failed"), "failv:" + vPctText(s.r, "failed with value")}[s.r.Intn(9)]
 	var pl []byte
 	switch s.r.Intn(4) {
 	case 0:
@@ -229,11 +247,14 @@ func (s *vSess) doCall() {
 
 func (s *vSess) doDeliver(to string) {
 	q := s.queue(to)
+	s.wmu.Lock()
 	if len(*q) == 0 {
+		s.wmu.Unlock()
 		return
 	}
 	frame := (*q)[0]
 	*q = (*q)[1:]
+	s.wmu.Unlock()
 	s.labels = append(s.labels, "LDeliver "+to)
 	s.desc = append(s.desc, "deliver:"+to)
 	if err := vFeed(s.sideTr(to), frame); err != nil {
@@ -312,13 +333,13 @@ func (s *vSess) doInject() {
 		app, _ := proto.Marshal(vAppMsg(fmt.Sprintf("forged%d", s.injN), []byte("forged"), ""))
 		e := ""
 		if s.r.Intn(4) == 0 {
-			e = "forged error"
+			e = vPctText(s.r, "forged error")
 		}
 		m = &message.Message{Exchange: &message.Message_Response{Response: &message.Response{CallId: id, Payload: app, Error: e}}}
 		coq = fmt.Sprintf("(MResp {| p_callid := %s; p_payload := %s; p_error := %s |})", vCoqStr(id), vCoqBytes(app), vCoqStr(e))
 	case 2:
 		id := uuid.NewString()
-		app, _ := proto.Marshal(vAppMsg(fmt.Sprintf("inj%d", s.injN), []byte("x"), ""))
+		app, _ := proto.Marshal(vAppMsg(fmt.Sprintf("inj%d_%d", s.injN, s.key[0]), []byte("x"), "")) // handler gates are per token: unique across the sessions of a shared server
 		m = &message.Message{Exchange: &message.Message_Request{Request: &message.Request{Method: "Echo", CallId: id, Payload: app}}}
 		coq = fmt.Sprintf("(MReq {| r_method := %s; r_callid := %s; r_payload := %s |})", vCoqStr("Echo"), vCoqStr(id), vCoqBytes(app))
 	default:
@@ -326,7 +347,9 @@ func (s *vSess) doInject() {
 		coq = "MNone"
 	}
 	q := s.queue(to)
+	s.wmu.Lock()
 	*q = append(*q, vFrame(m))
+	s.wmu.Unlock()
 	s.labels = append(s.labels, fmt.Sprintf("LInject %s %s", to, coq))
 	s.desc = append(s.desc, "inject:"+to)
 }
@@ -338,7 +361,9 @@ func (s *vSess) doDown() {
 		tr.failWrite = true
 		tr.mu.Unlock()
 	}
+	s.wmu.Lock()
 	s.toA, s.toB = nil, nil
+	s.wmu.Unlock()
 	s.labels = append(s.labels, "LDown")
 	s.desc = append(s.desc, "down")
 }
@@ -452,7 +477,13 @@ func (s *vSess) emit(class string, extraFail string) {
 			}
 		}
 	}
+	s.wmu.Lock()
+	respN := map[string]int{}
 	for id, n := range s.respN {
+		respN[id] = n
+	}
+	s.wmu.Unlock()
+	for id, n := range respN {
 		injected := false
 		for _, l := range s.labels {
 			if strings.HasPrefix(l, "LInject") && strings.Contains(l, vCoqStr(id)) {
